@@ -80,7 +80,7 @@ package secure
 //@ trusted socket.(*message).UnmarshalBody in plugin/secure.(*decryptPlugin).PostReadCallBody
 //@   flags libframe seq
 //@   modifies allelems(type(byte)), ghost.lastUnmarshal, ghost.unmarshals
-//@   ghostset ghost.lastUnmarshal = view(bodyBytes)
+//@   ghostset ghost.lastUnmarshal = old(view(bodyBytes))
 //@   ghostset ghost.unmarshals = old(ghost.unmarshals) + 1
 
 // encrypt side (calls, pushes and replies all go through PreWriteCall)
@@ -117,12 +117,12 @@ package secure
 //@ func (*decryptPlugin).PostReadCallBody
 //@   property C17
 //@   flags libframe seq
-//@   requires e.statCode != 0
+//@   requires e.statCode != 0 && len(e.version) > 0
 //@   let im = inMsg(ctx)
 //@   let sw = swapOf(ctx)
 //@   let parked = old(sw.#gkeys[iface(type(swapKey), encrypt_rawbody)])
 //@   let enc = as(old(im.body), type(*Encrypt))
 //@   modifies im.body, allelems(type(byte)), mapviews, ghost.lastUnmarshal, ghost.unmarshals
 //@   ensures[unmarked-untouched] !parked ==> result == nil && im.body == old(im.body) && ghost.unmarshals == old(ghost.unmarshals)
-//@   ensures[other-key-rejected] parked && old(enc.Cipherversion) != e.version ==> !statOK(result) && ghost.unmarshals == old(ghost.unmarshals)
+//@   ensures[other-key-rejected] parked && (enc == nil || old(enc.Cipherversion) != e.version) ==> !statOK(result) && ghost.unmarshals == old(ghost.unmarshals)
 //@   ensures[restored] parked && statOK(result) ==> im.body == old(sw.#gvals[iface(type(swapKey), encrypt_rawbody)]) && !sw.#gkeys[iface(type(swapKey), encrypt_rawbody)] && ghost.unmarshals == old(ghost.unmarshals) + 1 && ghost.lastUnmarshal == aesDec(base(e.cipherkey), bytesOfStr(old(enc.Ciphertext)))
